@@ -364,6 +364,7 @@ def run(repo, rep):
     _boundaries(repo, rep)
     _folding(repo, rep)
     _round5(repo, rep)
+    _zero_constants(repo, rep)
     rep.clause("C19-f", "tables share storage only when they are equal: the equivalence id of a LUT tensor is keyed by the complete value sequence (an injective key, no hash / digest / aggregate)")
     lu = repo.mod("lut")
     ct = lu.func("create_lut_tensor")
@@ -577,3 +578,31 @@ def _round5(repo, rep):
               "the saved LeakyReLU rescale is (activation scale x constant scale) / MUL output scale", f"scales are taken from {roots}: with the constant as the first MUL operand the multiplier becomes c_scale^2 / ofm_scale")
     if n < 4:
         raise AnalysisError("C19-g round 5: sites missing")
+
+
+def _zero_constants(repo, rep):
+    """(g) a constant that stands for the real value 0 stores its zero point: when the code 0 is stored, the quantisation attached to
+    it has zero point 0 (a fresh / cloned record with zero_point = 0), never the record of a tensor with an arbitrary zero point."""
+    n = 0
+    for mname in ("tflite_graph_optimiser", "graph_optimiser_util", "operation_util", "softmax", "lstm"):
+        m = repo.mod(mname)
+        for q, fn in m.functions.items():
+            zp0 = {str(norm(s_.targets[0].value)) for s_ in ast.walk(fn) if isinstance(s_, ast.Assign) and len(s_.targets) == 1 and isinstance(s_.targets[0], ast.Attribute)
+                   and s_.targets[0].attr == "zero_point" and str(norm(s_.value)) in ("0", "0.0")}
+            for c in walk_no_nested(fn):
+                if not (isinstance(c, ast.Call) and (call_name(c) or "").endswith("create_const_tensor") and len(c.args) >= 4):
+                    continue
+                v = c.args[3]
+                if not (isinstance(v, ast.List) and len(v.elts) == 1 and isinstance(v.elts[0], ast.Constant) and v.elts[0].value == 0):
+                    continue
+                qk = next((k.value for k in c.keywords if k.arg == "quantization"), c.args[5] if len(c.args) > 5 else None)
+                if qk is None:
+                    continue
+                n += 1
+                qt = str(norm(qk))
+                ok = qt in zp0
+                rep.check(ok, "C19-g", f"ethosu/vela/{mname}.py:{q}", f"`{str(norm(c))[:70]}`: the code 0 is stored under a quantisation whose zero point was set to 0",
+                          f"quantisation is `{qt}`: under a non-zero zero point the code 0 is the real value -zero_point * scale, so adding this 'zero' shifts the result by zero_point codes "
+                          "(demonstrated: a folded QUANTIZE that is a subgraph output comes out 20 codes too high for zero point -20)")
+    if n < 3:
+        raise AnalysisError(f"zero constants: only {n} found")
